@@ -1,3 +1,4 @@
+from copy import deepcopy
 from typing import Callable
 
 from typedpy.structures import (
@@ -177,8 +178,9 @@ class Array(
         if items is not None:
             if isinstance(items, Field):
                 if isinstance(items, Number) or items.__class__ is String:
-                    self._serialize = lambda value: value
-                    return value
+                    # scalar items need no conversion, but the document must not be the live stored list
+                    self._serialize = list
+                    return list(value)
                 if isinstance(items, ClassReference):
                     serializer = items._ty.serialize
                     self._serialize = lambda value: [serializer(x) for x in value]
@@ -191,7 +193,7 @@ class Array(
                     items[i].serialize(x) for (i, x) in enumerate(value)
                 ]
                 return self._serialize(value)
-        return value
+        return deepcopy(list(value))
 
 
 class ImmutableArray(ImmutableField, Array):
